@@ -310,3 +310,9 @@ for _pid in ("C04", "C06", "C18", "C16"):
 _POW = [("contracts.ufunc", n) for n in _U.POWERS]
 for _pid in ("C04", "C08", "C16", "C18"):
     PLANS[_pid].proofs += _POW
+
+# C19: numpy.allclose / isclose compare after conversion to one unit (merge guard), array_equal / array_equiv
+# answer without NumPy only for operands whose units differ
+PLANS["C19"].proofs += [("contracts.handlers", n) for n in _H.ALL
+                        if getattr(_H, n).handler in ("allclose", "isclose", "array_equal", "array_equiv")]
+PLANS["C11"].proofs += [("contracts.registry", "ArraySetstate")]        # unpickling restores exactly the pickled table
